@@ -466,7 +466,7 @@ impl Prop for C20 {
         "exploration"
     }
     fn rule(&self) -> String {
-        "run kinds. create: a seeded valid writer history (as C01, names without NUL) expressed through mla_config_* / mla_archive_* with a simulated write callback that accepts 1 byte, 1..n bytes or everything per call; the bytes collected by the callback must be an archive the Rust reader (prod build) reads back to the abstract model. extract: the archive goes through mla_roarchive_extract with simulated read/seek callbacks (1 byte, 1..n per read) and a file callback handing out one simulated writer per file (splitting schedules), declining a seeded subset: every accepted writer holds exactly the model's bytes, declined names receive nothing. failures: write callback failing from its k-th call on or ONLY at its k-th call, in three styles - error code with the count untouched; part of the buffer stored and reported, then the error code (what the project's own C samples do on ferror); whole length reported, nothing stored, error code - (whenever the callback did return a failure code, some call of the history or the final close must return a non-success status), read callback failing at its k-th call, the first per-file writer failing at its k-th call (same styles, same exact criterion), flush callback failing, missing private key: the status must not be success. null: each of 24 calls with a NULL handle, NULL out-pointer, NULL callback or a handle the interface itself cleared on release (config after mla_archive_new / mla_roarchive_extract, file after close, archive after close, double close) must return a non-success status; the worker process must survive. distinct_nontrivial = distinct (kind, recipients, schedule kinds, failure placement, outcome) signatures.".into()
+        "run kinds. create: a seeded valid writer history (as C01, names without NUL; one run in 150 with a single append of 4..10 MiB) expressed through mla_config_* / mla_archive_* with a simulated write callback that accepts 1 byte, 1..n bytes or everything per call; the bytes collected by the callback must be an archive the Rust reader (prod build) reads back to the abstract model. extract: the archive goes through mla_roarchive_extract with simulated read/seek callbacks (1 byte, 1..n per read) and a file callback handing out one simulated writer per file (splitting schedules), declining a seeded subset: every accepted writer holds exactly the model's bytes, declined names receive nothing. failures: write callback failing from its k-th call on or ONLY at its k-th call, in three styles - error code with the count untouched; part of the buffer stored and reported, then the error code (what the project's own C samples do on ferror); whole length reported, nothing stored, error code - (whenever the callback did return a failure code, some call of the history or the final close must return a non-success status), read callback failing at its k-th call, the first per-file writer failing at its k-th call (same styles, same exact criterion), flush callback failing, missing private key: the status must not be success. null: each of 24 calls with a NULL handle, NULL out-pointer, NULL callback or a handle the interface itself cleared on release (config after mla_archive_new / mla_roarchive_extract, file after close, archive after close, double close) must return a non-success status; the worker process must survive. distinct_nontrivial = distinct (kind, recipients, schedule kinds, failure placement, outcome) signatures.".into()
     }
     fn assumptions(&self) -> Vec<String> {
         vec![
@@ -502,6 +502,12 @@ impl Prop for C20 {
         let c = Consts { cipher_buf: 4096, chunk: 8192, block: 16384, repair_cache: 32768, failsafe_buf: 4096 };
         let o = GenOpts { max_files: 5, max_ops: 16, max_piece: 40_000, max_total: if rng.chance(1, 10) { 400_000 } else { 60_000 }, interleave: rng.chance(2, 3), flushes: rng.chance(1, 3), special_names: false, finalize: true, piece_scheds: false };
         let mut ops = gen_ops(&mut rng, &c, &o);
+        if rng.chance(1, 150) {
+            // ONE call of mla_archive_file_append with more than 4 MiB (a length that no power of two divides)
+            let n = (4usize << 20) + 1 + 2 * rng.usize_below(3 << 20);
+            let at = ops.len().saturating_sub(1);
+            ops.insert(at, WOp::Add { name: Name::lit("one big append"), data: Data::Period { n, p: 251 }, src: Src::exact() });
+        }
         // names must survive CString: gen_name never emits NUL; make them unique and non-empty
         for (i, op) in ops.iter_mut().enumerate() {
             if let WOp::Start { name, .. } | WOp::Add { name, .. } = op {
